@@ -321,7 +321,7 @@ def run(ctx):
 
     # =========================================================== (a) SGR tables
     ctx.rule("SGR-TABLE", "each chunk pushed by the encoder's FaceModify/Face arms decodes (sgr_face arms) to the same field and value", floor=31)
-    ctx.rule("SGR-COLOR", "true-colour form <38|48|58>;2;r;g;b: selector, component order and arity agree with sgr_color, also when another parameter follows", floor=6)
+    ctx.rule("SGR-COLOR", "true-colour form <38|48|58>;2;r;g;b: selector, component order and arity agree with sgr_color, also when another parameter follows; components > 255 rejected", floor=7)
     ctx.rule("SGR-FRAME", "reset is emitted first (decoder's 0 discards earlier fields); ESC[ .. ; .. m framing and ;/: splitting agree", floor=5)
     dec = DecoderTable(src, it)
     tc = truecolor_template(src)
@@ -487,7 +487,7 @@ def run(ctx):
             def read_back(params):
                 vals = [some(p) if p is not None else NONE for p in params] + [NONE] * (len(elems) - len(params))
                 try:
-                    return it.match_value(inner, vals[:len(elems)], Frame({}, None, DEC))
+                    return it.match_value(inner, vals[:len(elems)], Frame({}, None, DEC), as_fn_body=True)
                 except Unsupported as ex:
                     return "not evaluable: %s" % ex
             comps = [(R, G, B)[h] if h is not None else None for h in tc["holes"]]
@@ -495,6 +495,18 @@ def run(ctx):
             ctx.instance("SGR-COLOR", {"case": "colour is the last parameter", "written": comps, "read": str(last), "components": ref["sgr_colour_params"]["direct_components"]})
             if last != want:
                 ctx.violation("SGR-COLOR", "decoder::sgr_color", "component-order", "%s;%s written for RGB(%d,%d,%d) is read back as %s" % (sel.decode(), ";".join(map(str, comps)), R, G, B, last), sites=site)
+            # a component that does not fit a byte is not a colour (must not be truncated into a different colour)
+            if last == want and n_read >= n_written:
+                bad_over = None
+                for j in range(n_written):
+                    for big in (256, 1000):
+                        got = read_back([big if i == j else c for i, c in enumerate(comps)])
+                        if got != NONE and bad_over is None:
+                            bad_over = (j, big, got)
+                ctx.instance("SGR-COLOR", {"case": "component above 255", "positions": n_written, "rejected": bad_over is None})
+                if bad_over is not None:
+                    ctx.violation("SGR-COLOR", "decoder::sgr_color", "component-overflow",
+                                  "component %d = %d of a true-colour triple is read back as %s instead of being rejected (no colour)" % (bad_over[0], bad_over[1], bad_over[2]), sites=site)
             # followed by another parameter
             followers = []
             if 'fm_rows' in locals():
